@@ -4,7 +4,9 @@
 #       bucket shapes, LRU chain, start/anum, pos, asize);
 #   oracle: python reference structures (dict + recency list, list, sorted list, deque, bytearray, set) decide whether
 #       the implementation's answers contradict the property statement; a crash or a sanitizer report is a violation.
-import os, json
+#   scripts: random call sequences per container + a fixed set of DIRECTED sequences that cross every growth / shrink /
+#       compaction threshold of the sources from both sides (see "directed scripts" below) + corpus/C18.
+import os, json, zlib
 from concurrent.futures import ThreadPoolExecutor
 import vlib
 
@@ -393,6 +395,355 @@ def gen_po(rng, size):
 GENS = {"hm": gen_hm, "ul": gen_ul, "pl": gen_pl, "sa": gen_sa, "rb": gen_rb, "xs": gen_xs, "av": gen_av, "po": gen_po}
 
 
+# ------------------------------------------------------------------------------------------------ directed scripts
+# Every container has growth / shrink / compaction thresholds that random scripts of a few hundred operations never
+# reach.  The constants below are the ones of the sources (T1 pins MIN_BUCKETS, STEPS, IWULIST_ALLOC_UNIT,
+# IWXSTR_AUNIT, the pool alignment; the 256 of iwlist_shift and the 1024 byte printf buffer are literals of the code):
+#   iwlist   anum 32 (or given) -> anum + num + 1 when start + num >= anum (push/insert) or start == 0 and num >= anum
+#            (unshift, which then relocates the items to the end of the array); shift compacts when the new start is a
+#            multiple of 256 and start > num / 2; no shrink
+#   iwulist  same growth; pop/shift/remove shrink to max(num, 32) and compact when anum > 32 and anum >= 2 * num
+#   iwhmap   64 buckets; doubled when count > mask, halved when mask > 63 and count < mask / 2; bucket arrays in steps
+#            of 4 (grow at used + 1 >= total, shrink when used / 4 + 1 < total / 4); LRU eviction after the resize
+#   iwrb     wrap at pos == len, back at pos == 1;   iwxstr  asize 16 doubled (or set to the need) when asize < size +
+#            add + 1, printf through a 1024 byte stack buffer;   iwpool  a new unit when usiz + roundup8(siz) > asiz
+#   sorted-array helpers: insertion that fills the caller's array to its last element
+# The scripts below cross each of them from both sides with the element count just below / at / above the threshold.
+# Long list scripts run with `brief 1` (state = n, start, anum, CRC-32 of the contents, first and last element) and
+# end with a full dump; every element is unique so a wrong / duplicated / lost element cannot hide.
+LIST_FILL = (255, 256, 257, 511, 512, 513, 600, 767, 768, 1024, 1100)
+
+
+class _Ids:
+    def __init__(self, nbytes, base):
+        self.n, self.c = nbytes, base
+
+    def __call__(self):
+        self.c += 1
+        return "%0*x" % (2 * self.n, self.c)
+
+
+def _tail(c, rng, n, item, k):
+    """k mixed operations on a list of n elements (c = 'pl' / 'ul'); returns (lines, new n)"""
+    out = []
+    for _ in range(k):
+        op = rng.weighted([("unshift", 4), ("push", 2), ("ins0", 2), ("insmid", 2), ("insend", 1), ("shift", 4), ("pop", 2),
+                           ("rm0", 2), ("rmmid", 2), ("rmlast", 1), ("at", 2), ("clone", 1), ("set", 1)])
+        if op in ("unshift", "push"):
+            out.append("%s %s %s" % (c, op, item())); n += 1
+        elif op.startswith("ins"):
+            j = 0 if op == "ins0" else n if op == "insend" else n // 2
+            out.append("%s insert %d %s" % (c, j, item())); n += 1
+        elif op in ("shift", "pop"):
+            out.append("%s %s" % (c, op)); n = max(0, n - 1)
+        elif op.startswith("rm"):
+            j = 0 if op == "rm0" else max(0, n - 1) if op == "rmlast" else n // 2
+            out.append("%s rm %d" % (c, j))
+            if j < n:
+                n -= 1
+        elif op == "at":
+            out.append("%s at %d" % (c, rng.choice([0, max(0, n - 1), n, n // 2])))
+        elif op == "set":
+            out.append("%s set %d %s" % (c, rng.choice([0, max(0, n - 1), n // 2]), item()))
+        else:
+            out.append("%s clone" % c)
+    return out, n
+
+
+def _take_line(c, op, n):
+    if op in ("pop", "shift"):
+        return "%s %s" % (c, op)
+    return "%s rm %d" % (c, 0 if op == "rm0" else max(0, n - 1) if op == "rmlast" else n // 2)
+
+
+def directed_pl(rng):
+    ss = []
+
+    def mk(tag, an, body):
+        ss.append({"c": "pl", "tag": "dir-pl-" + tag,
+                   "lines": ["pl new %d" % an, "pl brief 1"] + body + ["pl dump", "pl clone", "pl destroy"]})
+    item = _Ids(3, 0x100000)
+    # queue use: push N, shift everything (+1 on the empty list), with the initial allocation below / at / above N
+    for i, n in enumerate(LIST_FILL):
+        an = (0, 33, n, n + 1, 1)[i % 5]
+        body = ["pl push " + item() for _ in range(n)] + ["pl at 0", "pl at %d" % (n - 1)] + ["pl shift"] * (n + 1)
+        body += ["pl push " + item(), "pl unshift " + item(), "pl shift", "pl push " + item()]
+        mk("queue%d" % n, an, body)
+    # stop after K shifts (start just below / at / above the compaction point) and go on with other operations
+    for n, k in ((513, 255), (513, 256), (513, 257), (600, 256), (1024, 511), (1024, 512), (1024, 513), (1100, 512)):
+        body = ["pl push " + item() for _ in range(n)] + ["pl shift"] * k
+        t, m = _tail("pl", rng, n - k, item, 16)
+        body += t + ["pl dump"]
+        # ... and cross the next multiple of 256 coming from there
+        body += ["pl shift"] * min(m, 260)
+        mk("stop%d-%d" % (n, k), rng.choice([0, 33]), body)
+    # the start offset reached through unshift (relocation to the end of the array), then drained from the front
+    for n in (300, 600, 1100):
+        body = ["pl unshift " + item() for _ in range(n)] + ["pl shift"] * (n + 1)
+        mk("unshift%d" % n, rng.choice([0, 1, 2]), body)
+    # mixed fill (push / unshift / insert in the middle), drained from both ends and the middle
+    body, n = [], 0
+    for i in range(600):
+        body.append(("pl push %s", "pl unshift %s", "pl insert %d %%s" % (n // 2))[i % 3] % item()); n += 1
+    for i in range(601):
+        body.append(_take_line("pl", ("shift", "shift", "pop", "rmmid", "shift", "rm0")[i % 6], n)); n = max(0, n - 1)
+    mk("mixed600", 0, body)
+    # growth 32 -> 65 -> 131 -> 263 by insert at the end / at the front, removal from the end
+    for where in ("end", "front"):
+        body = ["pl insert %s %s" % ("%d" % i if where == "end" else "0", item()) for i in range(270)]
+        body += ["pl rm %d" % (269 - i) for i in range(270)] + ["pl pop", "pl rm 0"]
+        mk("insert-" + where, 0, body)
+    return ss
+
+
+def directed_ul(rng):
+    ss = []
+
+    def mk(tag, us, il, body):
+        ss.append({"c": "ul", "tag": "dir-ul-" + tag,
+                   "lines": ["ul new %d %d" % (us, il), "ul brief 1"] + body + ["ul dump", "ul clone", "ul destroy"]})
+    item = _Ids(4, 0x10000000)
+    item2 = _Ids(2, 0x1000)
+    # fill by push to just below / at the growth points (33, 66, 132, 264, 528, 1056 pushes grow the array), then take
+    # everything back through the shrink points (anum >= 2 * num) from the end / the front / the middle
+    small = (32, 33, 65, 66, 131, 132)
+    for n in small:
+        for op in ("pop", "shift", "rm0", "rmlast", "rmmid"):
+            body = ["ul push " + item() for _ in range(n)]
+            m = n
+            for _ in range(n + 1):
+                body.append(_take_line("ul", op, m)); m = max(0, m - 1)
+            body += ["ul push " + item(), "ul unshift " + item()]
+            mk("fill%d-%s" % (n, op), 4, 0, body)
+    for n, op in ((263, "pop"), (264, "shift"), (527, "rm0"), (528, "rmlast"), (600, "shift"), (1055, "pop"), (1056, "shift"),
+                  (1100, "rmmid")):
+        body = ["ul push " + item() for _ in range(n)]
+        m = n
+        for _ in range(n + 1):
+            body.append(_take_line("ul", op, m)); m = max(0, m - 1)
+        body += ["ul push " + item(), "ul unshift " + item()]
+        mk("fill%d-%s" % (n, op), 4, 0, body)
+    # initial allocation just below / at / above the number of pushes
+    for n in (33, 64, 65, 200):
+        for il in (n - 1, n, n + 1):
+            body = ["ul push " + item2() for _ in range(n)]
+            m = n
+            op = rng.choice(["pop", "shift", "rm0", "rmmid"])
+            for _ in range(n):
+                body.append(_take_line("ul", op, m)); m -= 1
+            mk("il%d-%d-%s" % (il, n, op), 2, il, body)
+    # oscillate around a growth / shrink point
+    for n in (33, 66, 132, 264, 528):
+        body = ["ul push " + item() for _ in range(n - 1)]
+        m = n - 1
+        for _ in range(40):
+            if m <= n - 3 or (m < n + 3 and rng.chance(1, 2)):
+                body.append(rng.choice(["ul push %s", "ul unshift %s", "ul insert 0 %s", "ul insert %d %%s" % (m // 2),
+                                        "ul insert %d %%s" % m]) % item()); m += 1
+            else:
+                body.append(_take_line("ul", rng.choice(["pop", "shift", "rm0", "rmmid", "rmlast"]), m)); m -= 1
+        mk("osc%d" % n, 4, 0, body)
+    # front fill, drained from the front; mixed tail in the middle of a big list
+    body = ["ul unshift " + item() for _ in range(600)] + ["ul shift"] * 601
+    mk("unshift600", 4, rng.choice([0, 1, 40]), body)
+    body = ["ul push " + item() for _ in range(530)]
+    t, m = _tail("ul", rng, 530, item, 30)
+    body += t + ["ul dump"] + ["ul shift", "ul pop"] * (m // 2 + 1)
+    mk("tail530", 4, 0, body)
+    return ss
+
+
+def directed_hm(rng):
+    ss = []
+
+    def key(kind, i):
+        if kind == "u32":
+            return str(1000 + 7 * i)
+        if kind == "u64":
+            return str((1 << 40) + 0x10001 * i)
+        if kind == "str":
+            return hx(b"k%03d" % i)
+        return str(5 + i)
+    vid = [70000]
+
+    def val():
+        vid[0] += 1
+        return vid[0]
+    borders = (62, 63, 64, 65, 66, 126, 127, 128, 129, 130, 254, 255, 256, 257, 258)
+    # up through 64 -> 128 -> 256 -> 512 buckets and down again, an observation on both sides of every resize
+    for kind in ("u32", "u64", "str", "ptr"):
+        lines = ["hm new %s -1" % kind]
+        for i in range(260):
+            lines.append("hm put %s %d" % (key(kind, i), val()))
+            if i + 1 in borders:
+                lines += ["hm shape"] + (["hm iter"] if (i + 1) % 2 else [])
+        order = list(range(260))
+        if kind in ("u64", "ptr"):
+            order.reverse()
+        n = 260
+        for i in order:
+            lines.append("hm rm %s" % key(kind, i)); n -= 1
+            if n in borders or n % 32 == 0:
+                lines += ["hm shape"] + (["hm iter"] if n in (63, 126, 254) else [])
+        for i in range(70):
+            lines.append("hm put %s %d" % (key(kind, i * 3), val()))
+        lines += ["hm iter", "hm shape", "hm destroy"]
+        ss.append({"c": "hm", "tag": "dir-hm-ramp-" + kind, "lines": lines})
+    # LRU bound at / next to a resize point: the put that doubles the bucket array also evicts
+    for kind, bound in (("u32", 64), ("u64", 65), ("str", 128), ("ptr", 129), ("u32", 63), ("str", 66)):
+        lines = ["hm new %s %d" % (kind, bound)]
+        for i in range(bound + 12):
+            lines.append("hm put %s %d" % (key(kind, i), val()))
+            if bound - 3 <= i + 1 <= bound + 4:
+                lines += ["hm shape", "hm lru"]
+        for i in range(8):
+            lines.append("hm get %s" % key(kind, rng.range(0, bound + 11)))
+        for i in range(12):
+            lines.append("hm put %s %d" % (key(kind, bound + 12 + i), val()))
+        lines += ["hm lru", "hm iter", "hm shape"]
+        for i in range(bound + 24):
+            lines.append("hm rm %s" % key(kind, i))
+            if i % 16 == 0:
+                lines += ["hm shape", "hm lru"]
+        lines += ["hm iter", "hm destroy"]
+        ss.append({"c": "hm", "tag": "dir-hm-lru%d-%s" % (bound, kind), "lines": lines})
+    # one bucket (equal full hashes) through the steps of 4, up and down; then the same bucket across a resize
+    for top, order in ((14, "fifo"), (14, "lifo"), (14, "mid"), (70, "fifo")):
+        base = rng.range(1, 96)
+        ks = [str(base + 97 * j) for j in range(top)]
+        lines = ["hm new ptr -1"]
+        for k in ks:
+            lines += ["hm put %s %d" % (k, val()), "hm shape"]
+        lines.append("hm iter")
+        live = list(ks)
+        while live:
+            k = live.pop(0 if order == "fifo" else -1 if order == "lifo" else len(live) // 2)
+            lines += ["hm rm %s" % k, "hm shape"]
+            if len(live) in (9, 5):
+                lines += ["hm put %s %d" % (k, val()), "hm shape", "hm rm %s" % k]
+        lines += ["hm put %s %d" % (ks[0], val()), "hm iter", "hm destroy"]
+        ss.append({"c": "hm", "tag": "dir-hm-bucket%d-%s" % (top, order), "lines": lines})
+    return ss
+
+
+def directed_rb(rng):
+    ss = []
+    ctr = [0]
+
+    def put():
+        ctr[0] += 1
+        return "rb put %04x" % (0x1000 + ctr[0])
+    for ln in (1, 2, 3, 4, 8, 9):
+        lines = ["rb new 2 %d" % ln, "rb state", "rb back"]
+        lines += [put() for _ in range(ln - 1)] + ["rb state", put(), "rb state", "rb back", put()]   # full, not wrapped
+        lines += [put(), "rb state", "rb back", "rb state", put(), put()]                                # wrapped; back at pos 1
+        lines += ["rb back"] * (ln + 2) + [put() for _ in range(2 * ln + 1)] + ["rb state", "rb clear", "rb state"]
+        lines += [put() for _ in range(ln)] + ["rb back"] * ln + ["rb state", put(), "rb destroy"]
+        ss.append({"c": "rb", "tag": "dir-rb-len%d" % ln, "lines": lines})
+    return ss
+
+
+def directed_xs(rng):
+    ss = []
+
+    def grow(asz, need):
+        while asz < need:
+            asz <<= 1
+            if asz < need:
+                asz = need
+        return asz
+
+    def filler(n):
+        return hx(bytes(1 + (i * 7 + n) % 250 for i in range(n)))
+    for init in (0, 1, 17):
+        for op in ("cat", "unshift", "ins0", "insmid", "insend", "printf", "iprintf"):
+            asz = init or 16
+            sz = 0
+            lines = ["xs new %d" % init]
+            add = 1 if op in ("cat", "unshift", "ins0", "insmid", "insend") else 3
+
+            def step():
+                if op in ("cat", "unshift"):
+                    return "xs %s %s" % (op, filler(add))
+                if op.startswith("ins"):
+                    return "xs insert %d %s" % (0 if op == "ins0" else sz if op == "insend" else sz // 2, filler(add))
+                if op == "printf":
+                    return "xs printf %s 7" % filler(add - 2)
+                return "xs iprintf %d %s 7" % (sz // 2, filler(add - 2))
+            while asz <= 2048:
+                # fill so that one more step fits exactly (size + add + 1 == asize), then step twice: fits, grows
+                pad = asz - 1 - add - sz
+                if pad > 0:
+                    lines.append("xs cat " + filler(pad)); sz += pad
+                for _ in range(2):
+                    lines.append(step()); sz += add
+                    asz = grow(asz, sz + 1)
+                lines.append("xs clone")
+            lines += ["xs pop 1", "xs shift 1", "xs shift %d" % (sz + 5), "xs cat 41", "xs destroy"]
+            ss.append({"c": "xs", "tag": "dir-xs-%s-%d" % (op, init), "lines": lines})
+    # growth where doubling is not enough; printf/insert_printf around the 1024 byte stack buffer (text = s + ":7")
+    lines = ["xs new 0", "xs cat " + filler(5000), "xs cat 41", "xs unshift " + filler(9000), "xs insert 3 " + filler(40000),
+             "xs clone", "xs clear"]
+    for n in (1020, 1021, 1022, 1023, 1024):
+        lines += ["xs printf %s 7" % filler(n), "xs iprintf 1 %s 7" % filler(n), "xs clear"]
+    lines += ["xs destroy"]
+    ss.append({"c": "xs", "tag": "dir-xs-jump", "lines": lines})
+    return ss
+
+
+def directed_sa(rng):
+    ss = []
+    for cap in (1, 2, 3, 8, 33):
+        tag = [0]
+
+        def ins(k, sk=0):
+            tag[0] += 1
+            return "sa ins %d %d %d" % (k, tag[0], sk)
+        lines = ["sa new %d" % cap, "sa find 1", "sa find2 1", "sa rm 1"]
+        lines += [ins(2 * i) for i in range(cap)] + [ins(1), ins(2 * cap)]              # ascending to full, then refused
+        for k in range(-1, 2 * cap + 1):
+            lines += ["sa find %d" % k, "sa find2 %d" % k]
+        lines += ["sa rm %d" % (2 * i) for i in range(cap)] + ["sa rm 0"]                # from the front
+        lines += [ins(2 * (cap - i)) for i in range(cap)]                               # descending to full
+        lines += ["sa rm %d" % (2 * (cap - i)) for i in range(cap)]                     # from the end
+        mid = list(range(cap))
+        mid.sort(key=lambda i: abs(i - cap // 2))
+        lines += [ins(2 * i) for i in mid[:-1]]                                         # middle out, one slot left
+        last = 2 * mid[-1]
+        lines += [ins(2 * mid[0], 1) if cap > 1 else ins(last, 1), ins(last), ins(last)]  # skipeq on a present key, fill, refused
+        lines += ["sa rm %d" % (2 * i) for i in mid]
+        lines += [ins(5) for _ in range(cap)] + ["sa find 5", "sa find2 5", "sa rm 5", ins(4), ins(6), "sa rm 5"]  # duplicates
+        ss.append({"c": "sa", "tag": "dir-sa-cap%d" % cap, "lines": lines})
+    return ss
+
+
+def directed_po(rng):
+    ss = []
+    for siz in (8, 16, 64, 100, 1024):
+        asz = (siz + 7) // 8 * 8
+        for rest in (0, 8, 16):
+            if rest > asz:
+                continue
+            for d in (-1, 0, 1):
+                if rest + d < 0:
+                    continue
+                lines = ["po new %d" % siz]
+                if asz - rest:
+                    lines.append("po alloc %d" % (asz - rest))
+                lines += ["po %s %d" % (rng.choice(["alloc", "calloc"]), rest + d), "po alloc 1", "po alloc 8", "po alloc 9",
+                          "po strdup " + hx(b"abcdefg"), "po strdup " + hx(b"abcdefgh"), "po printf %s 7" % hx(b"xy"),
+                          "po alloc %d" % (2 * asz), "po alloc 0", "po destroy"]
+                ss.append({"c": "po", "tag": "dir-po-%d-%d%+d" % (siz, rest, d), "lines": lines})
+    return ss
+
+
+def directed(rng):
+    out = []
+    for f in (directed_pl, directed_ul, directed_hm, directed_rb, directed_xs, directed_sa, directed_po):
+        out += f(rng.fork())
+    return out
+
+
 # ------------------------------------------------------------------------------------------------ oracles
 # each oracle returns a list of (line index, message); `outs` are the implementation's output lines
 def oracle_hm(lines, outs):
@@ -506,9 +857,14 @@ def oracle_ul(lines, outs):
 
     def state(i, o, what):
         r = kv(o)
-        if r.get("n") != str(len(ref)) or _units(r.get("d", "-")) != ref:
+        if "crc" in r:
+            # brief state line of the long directed scripts: count, checksum of all units, first and last unit
+            e = ("%08x" % zlib.crc32(bytes.fromhex("".join(ref))), ref[0] if ref else "none", ref[-1] if ref else "none")
+            if r.get("n") != str(len(ref)) or (r.get("crc"), r.get("hd"), r.get("tl")) != e:
+                bad.append((i, "%s: list is %s, reference n=%d crc=%s hd=%s tl=%s" % (what, o[:200], len(ref), e[0], e[1], e[2])))
+        elif r.get("n") != str(len(ref)) or _units(r.get("d", "-")) != ref:
             bad.append((i, "%s: list is %s, reference %s" % (what, o[:200], ".".join(ref)[:200] or "-")))
-        elif "st" in r and int(r["st"]) + int(r["n"]) > int(r["an"]):
+        if "st" in r and "an" in r and int(r["st"]) + int(r["n"]) > int(r["an"]):
             bad.append((i, "%s: start+num exceeds the allocation: %s" % (what, o[:120])))
     for i, (l, o) in enumerate(zip(lines, outs)):
         t = l.split()
@@ -518,6 +874,8 @@ def oracle_ul(lines, outs):
         if op == "new":
             ref, us = [], int(t[2])
             state(i, o, op); continue
+        if op == "brief":
+            continue
         if op == "push":
             ref.append(norm(t[2]))
         elif op == "unshift":
@@ -586,8 +944,23 @@ def oracle_pl(lines, outs):
     bad = []
     ref = []
 
+    enc = {}
+
+    def e1(h):
+        b = enc.get(h)
+        if b is None:
+            d = unhx(h)
+            b = enc[h] = bytes([len(d) & 255]) + d
+        return b
+
     def state(i, o, what):
         r = kv(o)
+        if "crc" in r:
+            # brief state line of the long directed scripts: count, checksum of (size, bytes) of all items, first and last item
+            e = ("%08x" % zlib.crc32(b"".join(map(e1, ref))), ref[0] if ref else "none", ref[-1] if ref else "none")
+            if r.get("n") != str(len(ref)) or (r.get("crc"), r.get("hd"), r.get("tl")) != e or r.get("z") != "1":
+                bad.append((i, "%s: list is %s, reference n=%d crc=%s hd=%s tl=%s" % (what, o[:200], len(ref), e[0], e[1], e[2])))
+            return
         got = [] if r.get("n") == "0" else r.get("d", "").split(".")
         if r.get("n") != str(len(ref)) or got != ref or r.get("z") != "1":
             bad.append((i, "%s: list is %s, reference %s" % (what, o[:200], ".".join(ref)[:200] or "-")))
@@ -596,6 +969,8 @@ def oracle_pl(lines, outs):
         op = t[1]
         r = kv(o)
         rc, ev = "0", None
+        if op == "brief":
+            continue
         if op == "new":
             ref = []
         elif op == "push":
@@ -610,6 +985,8 @@ def oracle_pl(lines, outs):
                 rc, ev = "oob", "nil"
             if r.get("v") != ev:
                 bad.append((i, "%s returned element %s, reference %s" % (op, r.get("v"), ev)))
+            if "own=dup" in o:
+                bad.append((i, "%s handed out an element that the list still references (owned twice)" % op))
         elif op == "insert":
             j = int(t[2])
             rc = "0" if j <= len(ref) else "oob"
@@ -946,8 +1323,8 @@ ORACLES = {"hm": oracle_hm, "ul": oracle_ul, "pl": oracle_pl, "sa": oracle_sa, "
 # ------------------------------------------------------------------------------------------------ running
 def run_scripts(exe, scripts, env=None):
     """Feeds the scripts to one process after the other script crashed it.  Returns (outs per script or None, crashes)
-    crashes: list of (script index, line index, stderr tail).  A non-zero exit after all output (leak report) is
-    returned as (-1, -1, stderr)."""
+    crashes: list of (script index, line index, stderr tail, output lines of that script before the crash).  A non-zero
+    exit after all output (leak report) is returned as (-1, -1, stderr, [])."""
     outs = [None] * len(scripts)
     crashes = []
     start = 0
@@ -969,13 +1346,13 @@ def run_scripts(exe, scripts, env=None):
             else:
                 # died inside this script
                 outs[start + j] = None
-                crashes.append((start + j, len(out) - pos, err))
+                crashes.append((start + j, len(out) - pos, err, out[pos:]))
                 start = start + j + 1
                 done = False
                 break
         if done:
             if rc != 0:
-                crashes.append((-1, -1, err))
+                crashes.append((-1, -1, err, []))
             break
     return outs, crashes
 
@@ -1000,14 +1377,20 @@ def load_corpus():
 
 def evaluate(run, scripts, impl, asan, model, record=True):
     """runs everything on the scripts; returns number of violations found"""
-    nviol = 0
     by_c = {}
     for s in scripts:
         by_c.setdefault(s["c"], []).append(s)
+    # one process per group: at most 24 scripts / ~4000 lines (the long directed scripts get groups of their own)
     groups = []
     for c, ss in sorted(by_c.items()):
-        for i in range(0, len(ss), 24):
-            groups.append((c, ss[i:i + 24]))
+        cur, w = [], 0
+        for s in ss:
+            if cur and (len(cur) >= 24 or w + len(s["lines"]) > 4000):
+                groups.append((c, cur)); cur, w = [], 0
+            cur.append(s); w += len(s["lines"])
+        if cur:
+            groups.append((c, cur))
+    groups.sort(key=lambda g: -sum(len(s["lines"]) for s in g[1]))
     env_asan = dict(os.environ, ASAN_OPTIONS="detect_leaks=1:abort_on_error=0:exitcode=23:allocator_may_return_null=1",
                     UBSAN_OPTIONS="print_stacktrace=0")
     jobs = []
@@ -1018,49 +1401,57 @@ def evaluate(run, scripts, impl, asan, model, record=True):
         results = [(c, ss, a.result(), b.result(), m.result() if m else None) for c, ss, a, b, m in jobs]
     validated = 0
     seen_c = set()
+    # found: (priority, replay, note) - the oracle's verdicts first (they name the wrong answer), then sanitizer reports,
+    # crashes, differences between the builds, leaks
+    found = []
+
+    def oracle(c, s, o, partial):
+        bad = ORACLES[c](s["lines"][:len(o)], o)
+        if bad:
+            li, msg = bad[0]
+            found.append((0, {"kind": "oracle", "container": c, "script": s["lines"][:li + 1], "line": li, "impl": o[li][:2000]},
+                          "%s: `%s` -> %s%s" % (c, s["lines"][li], msg, " (the script crashed later)" if partial else "")))
+        return bool(bad)
     for c, ss, (outs, crashes), (aouts, acrashes), mres in results:
-        for (si, li, err) in crashes:
+        for (si, li, err, part) in crashes:
             if si < 0:
                 continue
-            nviol += 1
-            run.violation({"kind": "crash", "container": c, "script": ss[si]["lines"], "line": li,
-                           "stderr": err[-600:]}, "implementation crashed in `%s` (line %d of the script)" % (
-                ss[si]["lines"][min(li, len(ss[si]["lines"]) - 1)], li))
-        for (si, li, err) in acrashes:
-            nviol += 1
+            # what the implementation answered before it died is judged as well
+            complete = [x for x in part[:li] if x is not None]
+            if complete:
+                oracle(c, ss[si], complete, True)
+            found.append((2, {"kind": "crash", "container": c, "script": ss[si]["lines"], "line": li, "stderr": err[-600:]},
+                          "implementation crashed in `%s` (line %d of the script)" % (
+                              ss[si]["lines"][min(li, len(ss[si]["lines"]) - 1)], li)))
+        for (si, li, err, part) in acrashes:
             if si < 0:
                 # leak report at exit: name the container group; the scripts are the replay
-                run.violation({"kind": "leak", "container": c, "script": [l for s in ss for l in s["lines"]][:4000],
-                               "stderr": err[-900:]}, "LeakSanitizer: %s container scripts leave memory unreleased: %s" % (c, san_summary(err)))
+                found.append((4, {"kind": "leak", "container": c, "script": [l for s in ss for l in s["lines"]][:12000],
+                                  "stderr": err[-900:]},
+                              "LeakSanitizer: %s container scripts leave memory unreleased: %s" % (c, san_summary(err))))
             else:
-                run.violation({"kind": "sanitizer", "container": c, "script": ss[si]["lines"], "line": li,
-                               "stderr": err[-900:]}, "sanitizer report in `%s`: %s" % (
-                    ss[si]["lines"][min(li, len(ss[si]["lines"]) - 1)], san_summary(err)))
+                found.append((1, {"kind": "sanitizer", "container": c, "script": ss[si]["lines"], "line": li, "stderr": err[-900:]},
+                              "sanitizer report in `%s`: %s" % (ss[si]["lines"][min(li, len(ss[si]["lines"]) - 1)], san_summary(err))))
         for si, s in enumerate(ss):
             o = outs[si]
             if o is None:
                 continue
             if record:
                 run.case(json.dumps(s["lines"]), nontrivial=True,
-                         sample=({"container": c, "script_head": s["lines"][:6], "impl_head": o[:6]}
-                                 if si == 0 and s["tag"] != "corpus" and c not in seen_c else None))
-                seen_c.add(c)
+                         sample=({"container": c, "script_head": s["lines"][:6], "impl_head": [x[:300] for x in o[:6]]}
+                                 if si == 0 and not s["tag"].startswith(("corpus", "dir-")) and c not in seen_c else None))
+                if not s["tag"].startswith(("corpus", "dir-")):
+                    seen_c.add(c)
                 run.dist(s["tag"])
                 run.dist("ops-" + c, len(s["lines"]))
-            bad = ORACLES[c](s["lines"], o)
-            if bad:
-                nviol += 1
-                li, msg = bad[0]
-                run.violation({"kind": "oracle", "container": c, "script": s["lines"][:li + 1], "line": li,
-                               "impl": o[li]}, "%s: `%s` -> %s" % (c, s["lines"][li], msg))
+            oracle(c, s, o, False)
             if aouts[si] is not None and aouts[si] != o:
                 # the two builds of the same code disagree: uninitialised memory was printed
                 k = next(j for j in range(len(o)) if j >= len(aouts[si]) or aouts[si][j] != o[j])
-                nviol += 1
-                run.violation({"kind": "nondeterminism", "container": c, "script": s["lines"][:k + 1], "line": k,
-                               "impl": o[k], "asan": aouts[si][k] if k < len(aouts[si]) else None},
+                found.append((3, {"kind": "nondeterminism", "container": c, "script": s["lines"][:k + 1], "line": k,
+                                  "impl": o[k][:2000], "asan": aouts[si][k][:2000] if k < len(aouts[si]) else None},
                               "plain and sanitizer builds print different results for `%s`: %s / %s" % (
-                    s["lines"][k], o[k][:120], (aouts[si][k] if k < len(aouts[si]) else "")[:120]))
+                                  s["lines"][k], o[k][:120], (aouts[si][k] if k < len(aouts[si]) else "")[:120])))
             if mres is not None:
                 mo = mres[0][si]
                 if mo is None:
@@ -1075,6 +1466,12 @@ def evaluate(run, scripts, impl, asan, model, record=True):
                             print("T2 script:", json.dumps(s["lines"][:j + 1]))
                     else:
                         validated += len(o)
+    found.sort(key=lambda f: f[0])
+    nviol = acc = 0
+    for _, rep, note in found:
+        nviol += 1
+        if acc < 12 and run.violation(rep, note):   # every one is a replay file; the first ones tell the story
+            acc += 1
     run.cov["traces_validated_against_impl"] += validated
     # keep the report readable
     if len(run.broken) > 6:
@@ -1102,6 +1499,9 @@ def check(run):
             scripts.append(GENS[c](rng.fork(), rng.range(max(10, sz // 4), sz)))
     for _ in range(1 if quick else 12):
         scripts.append(gen_pl_long(rng.fork(), 0))
+    # the directed threshold scripts: the same set on every run (their mixed tails depend on the seed)
+    for _ in range(1 if quick else 6):
+        scripts += directed(rng.fork())
     nviol = evaluate(run, scripts, impl, asan, model)
     if run.broken and not nviol:
         # proofs or correspondence broken: widen the search for a failing input
@@ -1118,7 +1518,11 @@ def check(run):
                            "colliding modulo the bucket mask, grow/shrink/mixed phases across 64<->128<->256 buckets, rename onto "
                            "live keys, clear-then-reuse; lists: both ends, insert/remove at the borders, anum 32 crossed both ways; "
                            "sorted arrays with duplicates; ring wrap + back; string doubling, printf across the 1024 byte stack "
-                           "buffer; AVL ascending/descending/random; pool units, children, split). distinct = distinct script text",
+                           "buffer; AVL ascending/descending/random; pool units, children, split) + the directed threshold scripts (tags dir-*: "
+                           "lists of 255..1100 unique elements filled and drained from either end / the middle across the growth, "
+                           "shrink and start-offset-compaction points; bucket array 64<->512 with and without LRU bound, one bucket "
+                           "through its steps of 4; ring wrap/back per length; string growth per doubling step; pool unit exact fit; "
+                           "sorted arrays filled to capacity). distinct = distinct script text",
                       assumptions=["allocation failures are not injected (malloc/realloc succeed)",
                                    "ring buffer: after iwrb_back on a wrapped ring only the units still known to be present are compared "
                                    "(the ring keeps reporting len cached units)",
@@ -1138,12 +1542,11 @@ def replay(run, path):
     print("container:", c, " kind:", kind, " note:", r.get("note"))
     for l, o in zip(r["script"][-8:], (outs[0] or [])[-8:]):
         print("  %-40s -> %s" % (l[:40], o[:160]))
+    part = outs[0] if outs[0] is not None else (crashes[0][3] if crashes and crashes[0][0] >= 0 else [])
+    bad = [] if kind == "leak" else ORACLES[c](s["lines"][:len(part)], part)
+    for li, msg in bad[:3]:
+        print("oracle: line %d `%s`: %s" % (li, s["lines"][li], msg))
     if crashes:
         print("crash/sanitizer:", san_summary(crashes[0][2]))
         return 1
-    if outs[0] is None:
-        return 1
-    bad = [] if kind == "leak" else ORACLES[c](s["lines"], outs[0])
-    for li, msg in bad[:3]:
-        print("oracle:", msg)
     return 1 if bad else 0
